@@ -606,7 +606,7 @@ func runConc(c ConcCase) []ev.Violation {
 	x := uint32(c.Seed*7919 + 17)
 	rounds := 60
 	if rec.Thorough() {
-		rounds = 400
+		rounds = 150
 	}
 	for round := 0; round < rounds && len(vs) == 0; round++ {
 		var halt atomic.Bool
@@ -695,5 +695,5 @@ func TestC03(t *testing.T) {
 	}
 	ev.Check(t, rec, "selector", rec.Pick(10000, 300000), genSel, runSel)
 	ev.Check(t, rec, "history", rec.Pick(75, 2500), genHist, runHist)
-	ev.Check(t, rec, "concurrent", rec.Pick(10, 300), genConc, runConc)
+	ev.Check(t, rec, "concurrent", rec.Pick(10, 160), genConc, runConc)
 }
